@@ -8,6 +8,7 @@ package props
 import (
 	"bytes"
 	"fmt"
+	"io"
 	"testing"
 
 	"github.com/datastax/go-cassandra-native-protocol/message"
@@ -41,8 +42,12 @@ func c01Property(rt *rapid.T) {
 		rt.Fatalf("EncodeFrame failed on a version-valid frame: %v\n%s", err, renderFrame(fc, comp))
 	}
 	src := bytes.NewReader(enc)
-	dec, err := codec.DecodeFrame(src)
-	if (err != nil || canon.Diff(fc.Frame, dec) != "") && knownLz4("C01", spy) {
+	var rd io.Reader = src
+	if rapid.IntRange(0, 3).Draw(rt, "shortReads") == 0 {
+		rd = &chunkReader{r: src, chunks: drawChunks(rt)}
+	}
+	dec, err := codec.DecodeFrame(rd)
+	if (err != nil || diffFrames(fc.Frame, dec) != "") && knownLz4("C01", spy) {
 		return // open finding, excluded by construction and counted
 	}
 	if err != nil {
@@ -51,7 +56,7 @@ func c01Property(rt *rapid.T) {
 	if src.Len() != 0 {
 		rt.Fatalf("DecodeFrame left %d of %d bytes unread\n%s", src.Len(), len(enc), renderFrame(fc, comp))
 	}
-	if d := canon.Diff(fc.Frame, dec); d != "" {
+	if d := diffFrames(fc.Frame, dec); d != "" {
 		rt.Fatalf("round trip changed the frame: %s%s\n%s", d, lz4Diag(comp, enc), renderFrame(fc, comp))
 	}
 	// encoding must not alter the frame it was given, except for the computed body length
